@@ -239,6 +239,8 @@ def install(world):
         raise Unsupported('str() of %r' % (x,))
     reg('str', b_str)
 
+    m_int_module = None
+
     def b_int(x=0):
         if isinstance(x, (SInt, int)) and not isinstance(x, bool):
             return x
@@ -310,6 +312,19 @@ def install(world):
         raise Unsupported('hasattr on %r' % (x,))
     reg('hasattr', b_hasattr)
 
+    def b_getattr(it, node, o, name, *default):
+        if isinstance(o, SVal):
+            # reading a member of an opaque (host) object: a logged effect
+            r = apply_uf('py.getattr', (o, name), 'Val')
+            it.calls.append(('getattr', (o, name) + tuple(default), r))
+            if default:
+                return r
+            return r
+        if isinstance(name, str):
+            return it.getattr(o, name, node)
+        raise Unsupported('getattr(%r, %r)' % (o, name))
+    reg('getattr', b_getattr, True)
+
     def b_iter(it, node, x):
         if isinstance(x, (dict, tuple, list, set, frozenset, str)):
             return iter(x)
@@ -373,8 +388,11 @@ def install(world):
         from .world import ObjVal
         if isinstance(x, ObjVal):
             return x.cls
+        if isinstance(x, SVal):
+            return apply_uf('py.type', (x,), 'Val')
         raise Unsupported('type() of %r' % (x,))
     reg('type', b_type)
+    m['type'].pytype = 'type'
 
     def b_super(it, node, *a):
         from .world import SuperProxy
